@@ -69,6 +69,8 @@ class Script:
         self.lib_root = lib_root
         self.unawaited = []
         self.policy = policy
+        self._first_trigger = None
+        self._cur_trigger = None
         self.taken = []
         self.custom = None  # optional hook(script, idx, info) -> ("send", ev) | ("raise",) | None, overrides draws
 
@@ -82,6 +84,10 @@ class Script:
                 "source": getattr(kwargs.get("source"), "id", None),
                 "target": getattr(kwargs.get("target"), "id", None),
             }
+            ed = kwargs.get("event_data")
+            self._cur_trigger = getattr(ed, "trigger_data", None)
+            if self._first_trigger is None and info["event"] != "__initial__":
+                self._first_trigger = self._cur_trigger
             machine = self.sm if self.sm is not None else kwargs.get("machine")
             try:
                 info["cur"] = machine.current_state.id
@@ -192,6 +198,11 @@ class Script:
         if name in self.guard_names:
             v = ctx.sym_bool(f"g:{label}") if self.guard_kind == "bool" else ctx.sym_int(f"g:{label}", -2, 2)
             return v
+        if self.values == "first_none":
+            # every callback of the first event processed in this top-level call returns nothing
+            if self._first_trigger is None or self._cur_trigger is self._first_trigger:
+                return None
+            return ctx.sym_int(f"v:{label}", -3, 3)
         if self.values == "int":
             return ctx.sym_int(f"v:{label}", -3, 3)
         if self.values == "kinds":
